@@ -200,10 +200,9 @@ def dual_bound_sets(repo, fq, lower):
     """Values the dual branch of `fq` can put in the ub / lb of the programs it constructs."""
     fi = repo.func(fq)
     # the dual branch: else-part of `if primal:`
-    dual_body = None
-    for st in body_stmts(fi):
-        if isinstance(st, ast.If) and ntext(st.test) == 'primal':
-            dual_body = st.orelse
+    from .common import primal_dual_arms
+    arms = primal_dual_arms(fi)
+    dual_body = arms[1] if arms else None
     if dual_body is None:
         raise AnalysisError('%s: `if primal: ... else:` structure not found' % fq)
     ctors = []
